@@ -8,6 +8,7 @@ import (
 	"math/rand"
 	"os"
 	"path/filepath"
+	"sort"
 	"strings"
 )
 
@@ -115,8 +116,187 @@ func cmdC16(args []string) {
 	runLines(*dir, hist)
 }
 
+// ---- C07: a fault at every individual file call ----
+
+func (w *World) fileCalls() map[int]int {
+	m := map[int]int{}
+	for id, f := range w.files {
+		m[id] = len(f.Log)
+	}
+	return m
+}
+
+type injPoint struct {
+	op, fid, k, torn int
+}
+
+func cmdC07(args []string) {
+	fs := flag.NewFlagSet("c07", flag.ExitOnError)
+	seed := fs.Int64("seed", 1, "seed")
+	tier := fs.String("tier", "quick", "tier")
+	dir := fs.String("dir", ".", "output directory")
+	nh := fs.Int("n", 6, "base histories")
+	maxPts := fs.Int("points", 120, "max injection points per base history (0 = all)")
+	fs.Parse(args)
+	r := rand.New(rand.NewSource(*seed))
+	p := Profile{Name: "C07", Ops: 36, Set: 30, Del: 10, Get: 8, GetI: 5, Min: 3, Max: 3, Totals: 3, Visit: 6,
+		Flush: 10, Evict: 8, Reopen: 6, Revert: 2, Copy: 2, Snap: 2, SnapClose: 1, Len: 1, MaxColls: 2, Drop: 20, BigVals: false}
+	if *tier == "thorough" {
+		p.Ops = 50
+	}
+	g := &Gen{r: r, p: p}
+	os.MkdirAll(*dir, 0755)
+	fo, _ := os.Create(filepath.Join(*dir, "ops.txt"))
+	fi, _ := os.Create(filepath.Join(*dir, "impl.txt"))
+	bo, bi := bufio.NewWriterSize(fo, 1<<20), bufio.NewWriterSize(fi, 1<<20)
+	st := stats{OpKinds: map[string]int{}, ObsKinds: map[string]int{}}
+	extra := map[string]int{}
+	emit := func(l, o string) {
+		fmt.Fprintln(bo, l)
+		fmt.Fprintln(bi, o)
+		st.Ops++
+		st.OpKinds[opKind(l)]++
+		st.ObsKinds[obsKind(o)]++
+	}
+	dead := false
+	for h := 0; h < *nh && !dead; h++ {
+		base := g.history()
+		// dry run: file calls per operation
+		w := newWorld()
+		var pts []injPoint
+		for i, l := range base {
+			before := w.fileCalls()
+			// zero-valued entries for files that do not exist yet
+			w.Exec(l)
+			after := w.fileCalls()
+			kind := opKind(l)
+			if kind == "exist" || kind == "evict" || kind == "image" || kind == "dump" || kind == "crash" {
+				continue // no error channel / harness composite
+			}
+			for fid, a := range after {
+				n := a - before[fid]
+				if n <= 0 {
+					continue
+				}
+				for k := 1; k <= n; k++ {
+					pts = append(pts, injPoint{i, fid, k, -1})
+				}
+				// torn writes: sample lengths for the writes of this op
+				f := w.files[fid]
+				for k := 1; k <= n; k++ {
+					ev := f.Log[before[fid]+k-1]
+					if ev.Kind != 'W' || ev.Len == 0 {
+						continue
+					}
+					lens := []int{1, ev.Len / 2, ev.Len - 1}
+					if *tier == "thorough" && ev.Len <= 80 {
+						lens = nil
+						for j := 1; j < ev.Len; j++ {
+							lens = append(lens, j)
+						}
+					}
+					for _, j := range lens {
+						if j > 0 && j < ev.Len {
+							pts = append(pts, injPoint{i, fid, k, j})
+						}
+					}
+				}
+			}
+		}
+		extra["points_total"] += len(pts)
+		if *maxPts > 0 && len(pts) > *maxPts {
+			r.Shuffle(len(pts), func(i, j int) { pts[i], pts[j] = pts[j], pts[i] })
+			pts = pts[:*maxPts]
+		}
+		for _, pt := range pts {
+			w := newWorld()
+			fired := false
+			for i, l := range base {
+				if i != pt.op {
+					emit(l, w.Exec(l))
+					continue
+				}
+				fl := fmt.Sprintf("fault %d %d %d", pt.fid, pt.k, pt.torn)
+				emit(fl, w.Exec(fl))
+				o := w.Exec(l)
+				ul := fmt.Sprintf("unfault %d", pt.fid)
+				uo := w.Exec(ul)
+				if w.lastFired {
+					fired = true
+					extra["fired"]++
+					extra["fired_"+opKind(l)]++
+					emit("failop "+l, o)
+					emit(ul, uo)
+					emit("heapcheck", w.Exec("heapcheck"))
+					f := strings.Fields(l)
+					switch f[0] {
+					case "open":
+						emit(l, w.Exec(l)) // the file works again: retry
+					case "revert":
+						// the store must be re-opened after a failed FlushRevert
+						dl := "drop " + f[1]
+						emit(dl, w.Exec(dl))
+						ol := fmt.Sprintf("open %s %d", f[1], pt.fid)
+						emit(ol, w.Exec(ol))
+					case "flush":
+						if r.Intn(2) == 0 {
+							emit(l, w.Exec(l)) // retried Flush
+						}
+					}
+				} else {
+					extra["not_fired"]++
+					emit(l, o)
+					emit(ul, uo)
+				}
+				if w.dead {
+					break
+				}
+			}
+			_ = fired
+			// the durable state on every file, and a heap check
+			var fids []int
+			for id := range w.files {
+				fids = append(fids, id)
+			}
+			sort.Ints(fids)
+			for _, id := range fids {
+				l := fmt.Sprintf("opendump %d", id)
+				emit(l, w.Exec(l))
+			}
+			emit("heapcheck", w.Exec("heapcheck"))
+			st.Histories++
+			if w.dead {
+				dead = true
+				break
+			}
+		}
+		if h < 1 {
+			for _, l := range base {
+				if len(l) > 160 {
+					l = l[:160] + "..."
+				}
+				st.Samples = append(st.Samples, l)
+			}
+		}
+	}
+	st.Distinct = st.Histories
+	bo.Flush()
+	bi.Flush()
+	fo.Close()
+	fi.Close()
+	out := map[string]interface{}{"stats": st, "extra": extra}
+	js, _ := json.MarshalIndent(out, "", " ")
+	os.WriteFile(filepath.Join(*dir, "stats.json"), js, 0644)
+	if dead {
+		os.Exit(3)
+	}
+}
+
 func extraCommand(name string, args []string) bool {
 	switch name {
+	case "c07":
+		cmdC07(args)
+		return true
 	case "c16":
 		cmdC16(args)
 		return true
